@@ -430,7 +430,7 @@ type hsResult struct {
 	err  error
 }
 
-const stepTimeout = 20 * time.Second
+const stepTimeout = 90 * time.Second
 
 func readMsg(t testing.TB, r protobuf.Reader, m protobuf.Message, what string) error {
 	ctx, cancel := context.WithTimeout(context.Background(), stepTimeout)
